@@ -62,6 +62,13 @@ def edits_for(base):
     e("signatureAlgorithm", lambda c: c.__setitem__("signatureAlgorithm", "ECDSAwithSHA384"))
     e("issuerUniqueId", lambda c: c.__setitem__("issuerUniqueId", "!binary:CQk="))
     e("subjectUniqueId", lambda c: c.__setitem__("subjectUniqueId", "!binary:CAg="))
+    # the other raw spellings: an empty BIT STRING is a member of the certificate, an absent id is not
+    for which in ("issuerUniqueId", "subjectUniqueId"):
+        for val in ("!empty", "!null"):
+            if base.get(which) != val:
+                e("%s set to %s" % (which, val), lambda c, which=which, val=val: c.__setitem__(which, val))
+        if which in base:
+            e("%s removed" % which, lambda c, which=which: c.pop(which))
     v = base.get("validity", {})
     if "from" in v:
         e("validity.from", lambda c: c["validity"].__setitem__("from", "2021-02-04"))
